@@ -48,4 +48,27 @@ theorem outRangeImpl_ext_full (rp : Rp) (hinv : Inv rp) (hp : PadsOk rp.pads) (b
   rw [h5]
   exact ⟨refs, g1, g2, g4⟩
 
+/-- With or without the `pad` flag: the padding is `0x01 … 0x01` followed by what the generator wrote,
+    and it reads back frame by frame (C16 `parse_padded_full`). -/
+theorem outRangeImpl_ext_full_pad (rp : Rp) (hinv : Inv rp) (hp : PadsOk rp.pads) (b e : Nat) (hb : b < e) (he : e ≤ rp.nbFrames)
+    (exts : Array Ext) (hvx : AllValid exts (e - b))
+    (hpos : 0 < (exts ++ (gathered (rp.pads.take e) 0 b e).toArray).size)
+    (maxlen : Int) (sd pad : Bool) (bs : Bytes) (h : outRangeImpl rp b e maxlen sd pad exts = .ok bs) :
+    ∃ (p : Packet), Valid p ∧ bs = serialize sd p ∧ p.frames = selFrames rp b e ∧ p.toc / 4 = rp.toc / 4 ∧
+      (bs.length : Int) ≤ maxlen ∧ (pad = true → (bs.length : Int) = maxlen) ∧
+      ∀ cap : Int, ((exts ++ (gathered (rp.pads.take e) 0 b e).toArray).size : Int) ≤ cap →
+        ∃ refs, parse (padBytes p) (padBytes p).length cap ((e - b : Nat) : Int) = .ok refs ∧
+          refs.length = (exts ++ (gathered (rp.pads.take e) 0 b e).toArray).size ∧
+          ∀ g, (refs.filter (fun r => r.frame = g)).map (ExtRef.toExt (padBytes p)) =
+            (allOf (exts ++ (gathered (rp.pads.take e) 0 b e).toArray) g).map normExt := by
+  have hv := all_valid rp hp b e exts hvx
+  have hn48 : e - b ≤ 48 := by have := hinv.nb_le; omega
+  obtain ⟨p, k, h1, h2, h3, h4, h5, _, h7, h8⟩ := outRangeImpl_ext_gen rp hinv hp b e hb he exts hpos _
+    (genBytes_full _ _ hn48 hv hpos) maxlen sd pad bs h
+  refine ⟨p, h1, h2, h3, h4, h7, h8, ?_⟩
+  intro cap hcap
+  obtain ⟨refs, g1, g2, _, g4⟩ := parse_padded_full _ (e - b) hn48 (Nat.sub_pos_of_lt hb) hv k cap hcap
+  rw [h5]
+  exact ⟨refs, g1, g2, g4⟩
+
 end Opus.RepackProofs
